@@ -42,7 +42,7 @@ static bool check_input(const std::string &key, ek::Set *S, const LweSample *x, 
     return true;
 }
 
-static std::vector<int> targets(bool all) { std::vector<int> t; if (all) for (int p = 0; p < N2; p++) t.push_back(p); else t = {0, 1, 2, N - 2, N - 1, N, N + 1, N2 - 2, N2 - 1, 511, 1536}; return t; }
+static std::vector<int> targets(bool all) { if (opt("light") == "1") all = false; std::vector<int> t; if (all) for (int p = 0; p < N2; p++) t.push_back(p); else t = {0, 1, 2, N - 2, N - 1, N, N + 1, N2 - 2, N2 - 1, 511, 1536}; return t; }
 
 // ---- group: trivial samples (a = 0): all 2N cells, centre and both rounding edges; the result must be exactly +-mu (no CMux runs)
 static void g_trivial(int k, int l, int Bgbit) {
@@ -50,7 +50,7 @@ static void g_trivial(int k, int l, int Bgbit) {
     LweSample *x = new_LweSample(S->lp), *oks = new_LweSample(S->lp), *oext = new_LweSample(&S->tp->extracted_lweparams);
     for (int mi = 0; mi < 6; mi++) for (int cell = 0; cell < N2; cell++) {
         std::string key = fmt("trivial/k=%d/l=%d/Bgbit=%d/mu=%d/cell=%d", k, l, Bgbit, mi, cell);
-        if (!want(key)) continue; current(key);
+        if (!want(key)) continue; if (deadline()) break; current(key);
         if (quick() && mi >= 2 && !(cell < 2 || cell > N2 - 3 || (cell >= N - 2 && cell <= N + 1))) continue;
         for (int i = 0; i < S->n; i++) x->a[i] = 0;
         uint32_t c = (uint32_t)cell << 21; bool ok = true;
@@ -69,7 +69,7 @@ static void g_testpoly(int n, int k, int l, int Bgbit) {
         for (int j = 0; j < N; j++) v->coefsT[j] = vk == 0 ? (Torus32)0x20000000 : vk == 1 ? (j == 0 ? 0x40000000 : 0) : vk == 2 ? (j == 1 ? 0x40000000 : 0) : vk == 3 ? (j == N - 1 ? 0x40000000 : 0) : vk == 4 ? (Torus32)((uint32_t)j << 20) : (Torus32)splitmix(x);
         for (int fft = 1; fft >= 0; fft--) for (int p : targets(thorough() && fft)) for (int mk = 0; mk < 2; mk++) {
             std::string key = fmt("testpoly/n=%d/k=%d/l=%d/Bgbit=%d/v=%d/%s/p=%d/mask=%d", n, k, l, Bgbit, vk, fft ? "FFT" : "coef", p, mk);
-            if (!want(key)) continue; current(key);
+            if (!want(key)) continue; if (deadline()) break; current(key);
             if (!fft && (vk == 2 || vk == 3 || mk)) continue;
             int q = 0, nz = 0; for (int i = 0; i < n; i++) { bara[i] = mk == 0 ? (int)(splitmix(x) % N2) : (i % 3 == 0 ? 0 : (i % 3 == 1 ? N2 - 1 : N)); q += bara[i] * S->s->key[i]; if (bara[i]) nz++; }
             int barb = ((p + q) % N2 + N2) % N2;
@@ -91,7 +91,7 @@ static void g_n1(int keybit) {
     LweSample *x = new_LweSample(S->lp), *oks = new_LweSample(S->lp), *oext = new_LweSample(&S->tp->extracted_lweparams);
     for (int bara = 0; bara < N2; bara++) {
         std::string key = fmt("n1/s=%d/bara=%d", keybit, bara);
-        if (!want(key)) continue; current(key);
+        if (!want(key)) continue; if (deadline()) break; current(key);
         std::vector<int> ps = targets(thorough() && keybit == 1 && bara % 4 == (int)(vf::S().seed & 3));
         for (int p : ps) { int barb = (p + bara * keybit) % N2; x->a[0] = (Torus32)((uint32_t)bara << 21); x->b = (Torus32)(((uint32_t)barb << 21) + 12345u);
             if (!check_input(key, S, x, MUS[0], 0x1, oks, oext, "n=1 sweep")) break; }
@@ -110,7 +110,7 @@ static void g_dim(int n, int k, int l, int Bgbit) {
     for (int mk = 0; mk < (quick() ? 2 : 4); mk++) for (int mi = 0; mi < (quick() ? 2 : 6); mi++) for (int p : targets(thorough() && n <= 3 && mk == 0 && mi == 0)) {
         int midx = mi == 1 && quick() ? 3 : mi;
         std::string key = fmt("dim/n=%d/k=%d/l=%d/Bgbit=%d/mask=%d/mu=%d/p=%d", n, k, l, Bgbit, mk, midx, p);
-        if (!want(key)) continue; current(key);
+        if (!want(key)) continue; if (deadline()) break; current(key);
         uint64_t xs = rs + mk * 7919; for (int i = 0; i < n; i++) x->a[i] = (Torus32)splitmix(xs);
         if (mk == 1) for (int i = 0; i < n; i++) x->a[i] = (i & 1) ? (Torus32)0xFFE80000 : (Torus32)0x00180000; // round to 2N-1 and 1: wrap-around exponents
         int ties = 0; x->b = 0; int q = gates::rounded_phase(x->a, 0, S->s->key, n, N, &ties); // p for b = 0 is -sum
@@ -131,7 +131,7 @@ static void g_default(int lam) {
     std::vector<int> ps_; if (thorough()) for (int p = 0; p < N2; p++) ps_.push_back(p); else for (int c : {0, N}) for (int d = -16; d < 16; d++) ps_.push_back(((c + d) % N2 + N2) % N2);
     for (int p : ps_) {
         std::string key = fmt("default/lambda=%d/p=%d", lam, p);
-        if (!want(key)) continue; current(key);
+        if (!want(key)) continue; if (deadline()) break; current(key);
         for (int i = 0; i < n; i++) x->a[i] = (Torus32)splitmix(xs);
         int ties = 0; int q = gates::rounded_phase(x->a, 0, sk->lwe_key->key, n, N, &ties); int barb = ((p - q) % N2 + N2) % N2; x->b = (Torus32)(((uint32_t)barb << 21) + (uint32_t)(splitmix(xs) % (1u << 20)));
         if (ties) continue;
@@ -147,6 +147,7 @@ static void g_default(int lam) {
 static void group(const std::string &prefix, const std::function<void()> &fn, double tmo = 600) {
     if (!take_group(prefix)) return; if (deadline()) return;
     current(prefix + "(start)");
+    double remain = S().deadline_s - elapsed(); if (remain + 300 > tmo) tmo = remain + 300;   // children watch the deadline themselves; the kill timer is for real hangs only
     Fate f = forked(fn, tmo);
     if (f.died()) violation(curkey(), "process died in this case: " + fate_str(f) + " " + f.text.substr(0, 400));
 }
